@@ -166,7 +166,7 @@ func runRace(c RaceCase, ev *pbt.Ev) error {
 }
 
 func TestProp_Race(t *testing.T) {
-	pbt.Run(t, pbt.Options{Prop: "C16", Name: "Race", Quick: 84, Thorough: 6000, Current: true, Timeout: 120 * time.Second,
+	pbt.Run(t, pbt.Options{Prop: "C16", Name: "Race", Quick: 84, Thorough: 420, Current: true, Timeout: 120 * time.Second,
 		Rule: "rapid: 2-5 goroutines each running 2-10 lookup/use/release operations on the FUSE nodes of 1-3 shared images (a worker only releases what it used before); " +
 			"oracle: no lookup of a digest that is not a TOC digest of the image succeeds, served content is the layer's, the use counts after the workers equal uses minus releases and are never negative, and after everything is released every layer can be looked up again; run under the race detector (reports in store/ frames are violations). " +
 			"non-trivial = at least two workers and a final re-acquisition.",
